@@ -269,7 +269,13 @@ class _insert(Contract):
 
     @staticmethod
     def ensures(c):
-        return repr_self(c.self) + [("view_is_concat", is_concat(c.self.t["_S"], c.old.self.t["_S"], c.points))]
+        j = z3.Int(fresh_name("j"))
+        TS0, TS1, pts = c.old.self.t["_timestamps"].t, c.self.t["_timestamps"].t, c.points.t
+        app = z3.And(l_len(TS1) == l_len(TS0) + l_len(pts),
+                     forall([j], z3.Implies(z3.And(0 <= j, j < l_len(TS0)), l_at(TS1, j) == l_at(TS0, j)), patterns=[l_at(TS1, j), l_at(TS0, j)]),
+                     forall([j], z3.Implies(z3.And(0 <= j, j < l_len(pts)), l_at(TS1, l_len(TS0) + j) == ts(l_at(pts, j))), patterns=[l_at(pts, j)]))
+        return repr_self(c.self) + [("view_is_concat", is_concat(c.self.t["_S"], c.old.self.t["_S"], c.points)), ("timestamps_appended", app),
+                                    ("valid_flag_kept", c.self.t["_valid"].t == c.old.self.t["_valid"].t)]
 
     @staticmethod
     def ghost_defs(c):
@@ -284,7 +290,11 @@ class _insert(Contract):
         j, k = z3.Int(fresh_name("j")), z3.Int(fresh_name("k"))
         ub = forall([j, k], z3.Implies(z3.And(0 <= j, j < l_len(S0.t) + t, t <= k, k < l_len(pts)), l_at(TSl, j) <= ts(l_at(pts, k))),
                        patterns=[z3.MultiPattern(l_at(TSl, j), l_at(pts, k))])
-        return [("start_idx", c.start_idx.t == l_len(S0.t)), ("remaining_points_not_earlier", ub)] + repr_all(c.self, l_len(S0.t) + t, lambda j: l_at(V.t, j))
+        TS0 = c.old.self.t["_timestamps"].t
+        j2 = z3.Int(fresh_name("j2"))
+        app = z3.And(forall([j2], z3.Implies(z3.And(0 <= j2, j2 < l_len(TS0)), l_at(TSl, j2) == l_at(TS0, j2)), patterns=[l_at(TSl, j2), l_at(TS0, j2)]),
+                     forall([j2], z3.Implies(z3.And(0 <= j2, j2 < t), l_at(TSl, l_len(TS0) + j2) == ts(l_at(pts, j2))), patterns=[l_at(pts, j2)]))
+        return [("start_idx", c.start_idx.t == l_len(S0.t)), ("remaining_points_not_earlier", ub), ("timestamps_appended_so_far", app)] + repr_all(c.self, l_len(S0.t) + t, lambda j: l_at(V.t, j))
 
     loops = {0: dict(inv=lambda c: _insert._inv(c))}
 
@@ -545,7 +555,7 @@ def update_pre(c, parts):
     n2 = ix.t["_num_items"].t
     i, i2, p = z3.Int(fresh_name("i")), z3.Int(fresh_name("i2")), z3.Int(fresh_name("p"))
     kept = lambda x: z3.And(0 <= x, x < n, keep(x))
-    return [("view_len", n >= 0), ("new_len", n2 >= 0)] + sparse_all(ix, n, P, keep, parts) + [
+    return [("view_len", n >= 0), ("something_kept", n2 > 0)] + sparse_all(ix, n, P, keep, parts) + [
         ("renumber_in_range", forall([i], z3.Implies(kept(i), z3.And(0 <= npf(i), npf(i) < n2)), patterns=[z3.Select(d_dom(U.t), i)])),
         ("renumber_monotone", forall([i, i2], z3.Implies(z3.And(kept(i), kept(i2), i < i2), npf(i) < npf(i2)),
                                         patterns=[z3.MultiPattern(z3.Select(d_dom(U.t), i), z3.Select(d_dom(U.t), i2))])),
@@ -736,3 +746,17 @@ class _update(Contract):
     @staticmethod
     def ensures(c):
         return repr_self(c.self) + [("view_is_renumbered", c.self.t["_S"].t == c.Vnew.t)]
+
+
+@contract("tinyflux.index.Index.latest_time")
+class _latest_time(Contract):
+    """relative to the float round trip of timestamps (time theory, validated under C08)"""
+    params = dict(self=IX)
+    ret = Dt
+    theories = ("time",)
+    raises = {"IndexError": staticmethod(lambda c: dict(when=l_len(c.self.t["_timestamps"].t) == 0))}
+
+    @staticmethod
+    def ensures(c):
+        TSl = c.self.t["_timestamps"].t
+        return [("is_last_timestamp", dt_ts(c.result.t) == l_at(TSl, l_len(TSl) - 1))]
